@@ -394,6 +394,23 @@ func v2Messages(thorough bool) []v2Entry {
 			return &descriptorpb.DescriptorProto{Name: proto.String("M"), Field: []*descriptorpb.FieldDescriptorProto{{Name: proto.String("a")}, {}},
 				NestedType: []*descriptorpb.DescriptorProto{{Name: proto.String("N")}}}
 		}},
+		// messages that were measured by the runtime BEFORE a sub-message changed its size: their size caches are stale
+		// when EncodeNested sees them (the oracle bytes come from another instance built the same way, marshaled with a
+		// full re-computation)
+		{"Value{list} sized, then an element grown", true, func() proto.Message {
+			l, _ := structpb.NewList([]any{"a", 2.0})
+			v := structpb.NewListValue(l)
+			_ = proto.Size(v)
+			l.Values[0] = structpb.NewStringValue(strings.Repeat("b", 40))
+			return v
+		}},
+		{"DescriptorProto{nested} marshaled, then the nested type renamed", true, func() proto.Message {
+			d := &descriptorpb.DescriptorProto{Name: proto.String("M"), NestedType: []*descriptorpb.DescriptorProto{{Name: proto.String("N")}}}
+			_, _ = proto.Marshal(d)
+			d.NestedType[0].Name = proto.String(strings.Repeat("N", 200))
+			d.NestedType[0].Field = []*descriptorpb.FieldDescriptorProto{{Name: proto.String("f")}}
+			return d
+		}},
 		{"Timestamp{unknown fields}", true, func() proto.Message {
 			t := &timestamppb.Timestamp{Seconds: 3}
 			t.ProtoReflect().SetUnknown([]byte{0xa0, 0x06, 0x01, 0xaa, 0x06, 0x02, 0x68, 0x69})
